@@ -3,6 +3,7 @@ package main
 // Symbolic executor over naive-form go/ssa with state merging at joins and loops cut at their heads.
 
 import (
+	"os"
 	"fmt"
 	"go/ast"
 	"go/token"
@@ -59,6 +60,7 @@ type namedTerm struct {
 }
 
 type Exec struct {
+	forceNoPanic bool // sweep: explicit panics are obligations in every function
 	cfn         *ssa.Function // closure whose contract is being evaluated at a call site
 	cbind       []Val
 	olderAtLoad bool
@@ -768,7 +770,10 @@ func (ex *Exec) execBlock(fr *Frame, b *ssa.BasicBlock, st *State, ins []*State,
 			}
 			fr.rets = append(fr.rets, retRec{st: st, vals: vals, caps: caps})
 		case *ssa.Panic:
-			if fr.topFrame().con != nil && fr.topFrame().con.NoPanic && ex.spec == 0 {
+			if os.Getenv("GOVC_DEBUG") != "" {
+				fmt.Fprintln(os.Stderr, "PANIC instr in", fr.fn, "top", fr.topFrame().fn, fr.topFrame().con != nil, ex.forceNoPanic, ex.spec)
+			}
+			if fr.topFrame().con != nil && (fr.topFrame().con.NoPanic || ex.forceNoPanic) && ex.spec == 0 {
 				ex.oblige(fr, st, "panic", ex.srcText(x.Pos(), "panic"), False(), x.Pos(), "explicit panic is unreachable")
 			}
 		default:
